@@ -26,7 +26,9 @@ KU = X.KU_DIGITAL_SIGNATURE
 CHAIN_DEFECTS = ['untrusted-root', 'leaf-expired', 'leaf-not-yet-valid', 'intermediate-expired', 'issuer-no-basic-constraints',
                  'issuer-ca-false', 'issuer-no-keycertsign', 'leaf-signature-bad', 'intermediate-signature-bad',
                  'leaf-signed-by-other-key', 'leaf-issuer-name-mismatch', 'leaf-is-issuer-of-leaf', 'root-not-in-store-same-name',
-                 'unknown-critical-extension', 'upper-issuer-no-basic-constraints', 'upper-issuer-is-end-entity']
+                 'unknown-critical-extension', 'upper-issuer-no-basic-constraints', 'upper-issuer-is-end-entity',
+                 'untrusted-root-sent-in-chain', 'forged-root-same-name-sent-in-chain', 'forged-root-same-name-and-serial-sent-in-chain',
+                 'forged-intermediate-same-name-and-serial-as-anchor']
 KEY_DEFECTS = ['sign-key-mismatch']
 CLIENT_ONLY = ['no-client-certificate']
 TLCP_ONLY = ['enc-key-mismatch', 'enc-cert-untrusted']
@@ -70,6 +72,27 @@ def build_chain(tag, defect, leaf_usage=KU, leaf_cn='leaf'):
     elif defect == 'root-not-in-store-same-name':
         other = P(tag, 'other-root')
         trust = [X.make_cert(root_cn, R.pub(other), root_cn, other, exts=ca_exts)]
+    elif defect in ('untrusted-root-sent-in-chain', 'forged-root-same-name-sent-in-chain', 'forged-root-same-name-and-serial-sent-in-chain'):
+        # the peer appends the self-signed top of ITS hierarchy; the verifier trusts a different key.  The forged root may
+        # copy every unsigned identifier of the real anchor (name, serial number): only its key/signature cannot match
+        real = P(tag, 'real-root')
+        if defect == 'untrusted-root-sent-in-chain':
+            trust = [X.make_cert('other-' + tag, R.pub(real), 'other-' + tag, real, exts=ca_exts)]
+        elif defect == 'forged-root-same-name-sent-in-chain':
+            trust = [X.make_cert(root_cn, R.pub(real), root_cn, real, exts=ca_exts, serial=0x1234567)]
+        else:
+            trust = [X.make_cert(root_cn, R.pub(real), root_cn, real, exts=ca_exts, serial=0x7654321)]
+            root = X.make_cert(root_cn, R.pub(root_priv), root_cn, root_priv, exts=ca_exts, serial=0x7654321)
+        inter = X.make_cert(inter_cn, R.pub(inter_priv), root_cn, root_priv, exts=inter_exts)
+        leaf = X.make_cert(leaf_name, R.pub(leaf_priv), inter_cn, inter_priv, exts=leaf_exts)
+        return [leaf, inter, root], leaf_priv, trust
+    elif defect == 'forged-intermediate-same-name-and-serial-as-anchor':
+        # the verifier trusts an intermediate CA directly; the peer sends a self-made CA with the same name and serial
+        real = P(tag, 'real-inter')
+        trust = [X.make_cert(inter_cn, R.pub(real), root_cn, root_priv, exts=inter_exts, serial=0x5151), root]
+        inter = X.make_cert(inter_cn, R.pub(inter_priv), root_cn, P(tag, 'rogue-root'), exts=inter_exts, serial=0x5151)
+        leaf = X.make_cert(leaf_name, R.pub(leaf_priv), inter_cn, inter_priv, exts=leaf_exts)
+        return [leaf, inter], leaf_priv, trust
     elif defect == 'leaf-expired':
         leaf_kw = {'not_before': now - 86400 * 30, 'not_after': now - 3600}
     elif defect == 'leaf-not-yet-valid':
